@@ -113,7 +113,7 @@ PROPS = {
         technique="Lean 4 proof (invariant over every prefix of the step list) + strace trace conformance + exhaustive kill-point injection",
     ),
     "C09": dict(
-        modules=["Copia.Props.C09", "Copia.Props.C09b"], namespaces=["Copia.C09"], runner="bb", bb_module="bb_crash9", timeout=3000,
+        modules=["Copia.Props.C09", "Copia.Props.C09b", "Copia.Props.C09c"], namespaces=["Copia.C09"], runner="bb", bb_module="bb_crash9", timeout=3000,
         assumptions=_OW_ASSUME + ["'killed at any instant' = before any libc call of any copia thread (strace injection, per-thread counters); kills inside one write are covered by the staging file being opaque until renamed",
                                   "for push the remote command runs to completion on whatever part of the stream arrived (the property's setting)"],
         trusted_base=_OW_TB + ["strace (signal injection, -b execve)"],
